@@ -5,6 +5,7 @@
 //     caller's key - i.e. multi-part == single-part; a failing primitive makes the call fail and ends the operation
 //  1  verifyInit, the same splits, verifyFinal(sig) for an ARBITRARY sig of 0..BS_CAP bytes: accepted iff sig has exactly
 //     the MAC length and equals the model MAC in every byte (changed bit, truncated, extended, empty: rejected)
+//  3  (CMAC) init refused for lack of a cipher leaves no operation - recorded observation, tier 'finding'
 //  2  state machine: update / final without init fail and never reach the primitive; sign calls on a verify operation
 //     (and vice versa) fail; a second init while active is refused and does not disturb the running operation; after
 //     final (or a failure) the operation is gone, the context released exactly once
@@ -23,7 +24,8 @@ void softHSMLog(const int, const char*, const char*, const int, const char*, ...
 #define KLEN 2
 #endif
 #if CMAC
-class MacUT : public OSSLEVPCMacAlgorithm { public: virtual const EVP_CIPHER* getEVPCipher() const { return &model_cipher; } virtual size_t getMacSize() const { return MACSZ; } };
+static bool noCipher;   // OP 3: the key has no cipher (e.g. an AES key of 136 bits: OSSLCMACAES::getEVPCipher returns NULL)
+class MacUT : public OSSLEVPCMacAlgorithm { public: virtual const EVP_CIPHER* getEVPCipher() const { return noCipher ? (const EVP_CIPHER*)0 : &model_cipher; } virtual size_t getMacSize() const { return MACSZ; } };
 #define ALG (&model_cipher)
 #else
 class MacUT : public OSSLEVPMacAlgorithm { public: virtual const EVP_MD* getEVPHash() const { return &model_md; } virtual size_t getMacSize() const { return MACSZ; } };
@@ -125,6 +127,14 @@ extern "C" void harness(void)
 	vassert(mg.calls == c0 && idle(mac));
 	// and a new operation can be started
 	vassert(mac.verifyInit(&key) && mg.nNew == 2);
+	vreach();
+#elif OP == 3 && CMAC
+	// an init that is refused because the key length has no cipher must leave no operation behind (sign and verify alike)
+	noCipher = true;
+	bool signing = nondet_bool();
+	bool ok = signing ? mac.signInit(&key) : mac.verifyInit(&key);
+	vassert(!ok && mg.calls == 0 && mg.nNew == 0);
+	vassert(mac.currentOperation == MacAlgorithm::NONE);          // KNOWN to fail for verifyInit (see obl_c10.py, tier 'finding')
 	vreach();
 #endif
 }
